@@ -131,3 +131,66 @@ def search(pid, failures, seed, work, features=('history', 'autocomplete', 'help
                          'witness %s %s 20000' % (d, seed or 1)
             return res
     return None
+
+
+def attributed_functions(res):
+    """unit-name prefixes (units.json) of the real functions a counterexample of this driver speaks about"""
+    d = res.get('driver', '').split(':')[0]
+    inp = res.get('input', '')
+    if d == 'decoder':
+        return ['input::InputGenerator::', 'utf8::Utf8Accum::']
+    if d == 'utils':
+        m = re.match(r'(\w+)\(', inp)
+        return ['utils::%s' % m.group(1)] if m else ['utils::']
+    if d == 'token':
+        if inp.startswith('Tokens::new'):
+            return ['token::Tokens::new', 'token::TokensIter::next']
+        if inp.startswith('arguments of'):
+            return ['arguments::ArgsIter::next']
+        if inp.startswith('HelpRequest'):
+            return ['help::HelpRequest::from_command']
+        return ['command::RawCommand::from_tokens']
+    if d == 'editor':
+        return ['editor::Editor::']
+    if d == 'history':
+        return ['history::History::']
+    if d == 'autocomplete':
+        return ['autocomplete::Autocompletion::merge_autocompletion', 'utils::common_prefix_len']
+    if d == 'writer':
+        return ['writer::Writer::']
+    return []
+
+
+def relevant(pid, res, units):
+    """does this counterexample witness a violation of property pid?"""
+    if ':' in res.get('driver', ''):
+        return res['driver'].split(':')[1] == pid
+    if res.get('expected') == 'no panic':
+        return pid == 'C03'
+    for pre in attributed_functions(res):
+        for name, u in units.items():
+            if name.startswith(pre) and pid in u.get('props', []):
+                return True
+    return False
+
+
+def search_modules(pid, modules, seed, work, units, features=('history', 'autocomplete', 'help')):
+    """witness search when the verifier could not decide (front-end rejection of changed code): run the drivers of the
+    given modules; only a counterexample that speaks about a function carrying property pid counts"""
+    binary, log = build(work, features)
+    if binary is None:
+        raise RuntimeError('; '.join(log[-2:]))
+    tried = []
+    for mod in modules:
+        for d in DRIVERS.get(mod, []):
+            name = '%s:%s' % (d, pid) if d in FILTERED else d
+            if name in tried:
+                continue
+            tried.append(name)
+            res = run_driver(binary, name, seed)
+            if res.get('found') and relevant(pid, res, units):
+                res.update({'seed': seed or 1, 'features': list(features), 'drivers_tried': tried,
+                            'how': 'replayed on the real code built from the working tree (visibility-only copy): '
+                                   'witness %s %s 20000' % (name, seed or 1)})
+                return res
+    return None
